@@ -116,6 +116,14 @@ namespace sim
 		m_handler = std::move(handler);
 		if (m_expired)
 		{
+			// the timer was cancelled before its expiry (cancel() does not
+			// change the expiry): the wait must not complete before it
+			if (m_expiration_time > chrono::high_resolution_clock::now())
+			{
+				m_expired = false;
+				m_io_service->add_timer(this);
+				return;
+			}
 			fire(boost::system::error_code());
 			return;
 		}
